@@ -81,13 +81,14 @@ class C07(Prop):
         return r
 
     def model(self, case, reply, obs):
-        return {"direct": reply}
+        # the distribution is a mapping: the order in which the loader inserted its keys is not part of the property
+        return {"direct": reply if "exc" in reply else dict(reply, table=sorted(reply["table"]))}
 
     def project(self, case, obs):
         if "exc" in obs:
             return {"exc": obs["exc"]}
         d = obs["direct"]
-        return {"direct": d if "exc" in d else {"table": [[k, v] for k, v, _ in d["table"]]}}
+        return {"direct": d if "exc" in d else {"table": sorted([k, v] for k, v, _ in d["table"])}}
 
     def _reference(self, case):
         """expected table computed from the property text; returns ('error', None) when a division by zero is unavoidable"""
